@@ -344,6 +344,15 @@ def gen_case(rng, kind, tier, flavour=None, small=False):
         c['queries'] = c['queries'][:5]
     c['strat'] = rng.choice(STRATS)
     c['qstrat'] = rng.choice(STRATS) if kind == 'bai' else 'nil'     # bam.Index.MergeStrategy used by the public Chunks
+    # interleaved history: add some, query and/or write (both sort the index), add more, ...
+    if len(recs) >= 2 and rng.random() < 0.5:
+        cuts = sorted(set(rng.randrange(1, len(recs)) for _ in range(rng.choice([1, 1, 2, 3]))))
+        hist, prev = [], 0
+        for k in cuts:
+            hist.append([k - prev, rng.choice([1, 2, 3])])
+            prev = k
+        hist.append([len(recs) - prev, 0])
+        c['hist'] = hist
     c['wellformed'] = wellformed and mono
     c['mono'] = mono
     c['flavour'] = flavour or 'plain'
@@ -414,6 +423,71 @@ def gen_nested(rng, kind, tier):
     return c
 
 
+def gen_history(rng, kind, tier):
+    """Interleaved history on one reference: records of one high-level bin far
+    apart (so the linear index grows with a gap after the index has been
+    sorted by a query / write) mixed with leaf-bin records and later records
+    whose bin number is smaller than existing ones."""
+    c = gen_case(rng, kind, tier, None, small=True)
+    if kind == 'csi' and (c['ms'] < 8 or c['dp'] < 3):
+        c['ms'], c['dp'] = rng.randrange(8, 21), rng.randrange(3, 9)
+    ms, dp = (c.get('ms', 14), c.get('dp', 5)) if kind == 'csi' else (14, 5)
+    hi = (1 << (ms + 3 * dp)) - 2
+    lvl = 2
+    w = 1 << (ms + 3 * lvl)
+    w8 = w >> 3
+    t = 1 << ms
+    base = rng.randrange(0, 2) * w
+    if base + w > hi:
+        return c
+    def cross(child, d=None):          # a record across the boundary between child-1 and child of the bin
+        d1, d2 = rng.randrange(1, 60), rng.randrange(1, 60)
+        return dict(rid=0, pos=base + child * w8 - d1, end=base + child * w8 + d2)
+    def leaf(child):
+        p = base + child * w8 + rng.randrange(0, w8 - 40)
+        p = ((p >> ms) << ms) + rng.randrange(0, t - 30)
+        return dict(rid=0, pos=p, end=p + rng.randrange(1, 25))
+    children = sorted(rng.sample(range(1, 8), rng.choice([2, 3, 3, 4])))
+    segs = []
+    for ch in children:
+        seg = [cross(ch)]
+        for _ in range(rng.randrange(0, 3)):
+            seg.append(leaf(ch))
+        if rng.random() < 0.4:         # a lower-level boundary inside the child: a bin number between the two
+            q = base + ch * w8 + (w8 >> 3) * rng.randrange(1, 8)
+            seg.append(dict(rid=0, pos=q - rng.randrange(1, 40), end=q + rng.randrange(1, 40)))
+        seg.sort(key=lambda r: r['pos'])
+        segs.append(seg)
+    recs = [r for seg in segs for r in seg]
+    if any(recs[i]['pos'] > recs[i + 1]['pos'] for i in range(len(recs) - 1)) or recs[0]['pos'] < 0 or recs[-1]['end'] > hi:
+        recs.sort(key=lambda r: r['pos'])
+        segs = [recs[:len(recs) // 2], recs[len(recs) // 2:]]
+    if kind == 'bai':
+        for r in recs:
+            r['flags'] = 0
+            r['cig'] = cigar_for(rng, r['end'] - r['pos'])
+        c['real'] = rng.random() < 0.3
+    else:
+        for r in recs:
+            r['placed'], r['mapped'] = True, rng.random() < 0.9
+        if kind == 'tabix':
+            c['names'] = (c.get('names') or ['chrH'])[:1]
+    c['nref'] = 1
+    for r, (b, e) in zip(recs, layout(rng, len(recs))):
+        r['cb'], r['ce'] = b, e
+    c['recs'] = recs
+    c['hist'] = [[len(seg), rng.choice([1, 2, 2, 3])] for seg in segs if seg]
+    c['hist'][-1][1] = 0
+    qs = []
+    for r in recs[:10]:
+        b = max(0, r['pos'] - rng.randrange(0, 2 * t))
+        qs.append([0, b, min(hi + 1, max(b + 1, r['pos'] + rng.randrange(1, t)))])
+    c['queries'] = qs[:10]
+    c['strat'] = rng.choice(STRATS)
+    c['wellformed'], c['mono'], c['flavour'] = True, True, 'history'
+    return c
+
+
 def gen_cases(rng, tier, kinds=('bai', 'csi', 'tabix'), n=None, small=False):
     per = n if n is not None else (60 if tier == 'quick' else 400)
     cases = []
@@ -437,6 +511,8 @@ def gen_cases(rng, tier, kinds=('bai', 'csi', 'tabix'), n=None, small=False):
     for kind in kinds:
         for _ in range(max(2, per // 8)):
             cases.append(gen_nested(rng, kind, tier))
+        for _ in range(max(3, per // 6)):
+            cases.append(gen_history(rng, kind, tier))
     # no records at all / only unplaced records
     for kind in kinds:
         c = gen_case(rng, kind, tier)
